@@ -301,13 +301,20 @@ def run_case(spec):
     tstep = float(rng.choice([1 / 30, 0.01, 0.05, 0.1]))
     fixt = int(rng.integers(0, 2))
     tf = float(rng.choice([1.0, 1.5, 2.0, 2.5])) if not spec.get("long") else 10.6
+    # options added later draw from their own stream so that the schedules of earlier rounds stay what they were
+    rng2 = rng_for(spec.get("seed", 0), PROPERTY, 7, spec["index"])
+    refresh_event = int(rng2.random() < 0.25)        # documented option: event times re-collected at every step
+    ts_shuffled = bool(rng2.random() < 0.5)          # rows of a time-series sheet need not be in chronological order
     nseg = int(rng.integers(1, 5))
     cuts = sorted(set([float(np.round(rng.uniform(0.05, tf), int(rng.integers(1, 5)))) for _ in range(nseg - 1)]))
     segs = [c for c in cuts if 0 < c < tf] + [tf]
     with au.Scratch("c06") as sd:
-        rc = au.write_rc(os.path.join(sd, "a.rc"), {"TDS": dict(tstep=repr(tstep), fixt=fixt, tf=repr(segs[0]), no_tqdm=1, criteria=0),
+        rc = au.write_rc(os.path.join(sd, "a.rc"), {"TDS": dict(tstep=repr(tstep), fixt=fixt, tf=repr(segs[0]), no_tqdm=1, criteria=0,
+                                                                refresh_event=refresh_event),
                                                     "PFlow": dict(report=0)})
         ss = au.load(base, setup=False, config_path=rc)
+        if refresh_event:
+            res.count("runs_with_refresh_event")
         ev = gen_schedule(rng, ss, tf, tstep)
         if spec.get("long"):
             for e in ev[: max(1, len(ev) // 2)]:
@@ -327,7 +334,11 @@ def run_case(spec):
             tt = sorted(set([float(np.round(draw_time(rng, tf, tstep), 6)) for _ in range(nrow)]))
             ts_rows = [dict(t=float(t), c1=float(np.round(rng.uniform(0.1, 1.0), 6)), c2=float(np.round(rng.uniform(0.0, 0.5), 6))) for t in tt]
             xl = os.path.join(sd, "series.xlsx")
-            pd.DataFrame(ts_rows).to_excel(xl, sheet_name="S1", index=False)
+            rows_out = list(ts_rows)
+            if ts_shuffled and len(rows_out) > 1:
+                rows_out = [rows_out[i] for i in rng2.permutation(len(rows_out))]
+                res.count("time_series_sheets_not_chronological")
+            pd.DataFrame(rows_out).to_excel(xl, sheet_name="S1", index=False)
             ts_dev = ts_cands[int(rng.integers(0, len(ts_cands)))]
             ts_u = 0 if rng.random() < 0.15 else 1
             ss.add("TimeSeries", dict(idx="TS1", mode=1, path=xl, sheet="S1", fields="c1,c2", tkey="t", model="PQ", dev=ts_dev, dests="Ppf,Qpf", u=ts_u))
@@ -373,7 +384,7 @@ def run_case(spec):
         if ts_rows is not None:
             res.count("timeseries_schedules")
         res.nontrivial = res.obs.get("events_fired_ok", 0) >= 1
-        res.sample = dict(base=base, tstep=tstep, fixt=fixt, segments=segs, completed=completed, t_reached=t_reached,
+        res.sample = dict(base=base, tstep=tstep, fixt=fixt, refresh_event=refresh_event, segments=segs, completed=completed, t_reached=t_reached,
                           schedule=[dict(type=e["type"], t=e["t"], u=e["u"], target=e.get("dev", e.get("bus"))) for e in sched][:8],
                           fired_ok=res.obs.get("events_fired_ok", 0))
     return res
